@@ -7,7 +7,8 @@ from zonelib import AMAX, BMIN, MAXI, MINI, NPD, NPS
 
 META = {
     "property": "C04",
-    "proof_modules": ["PyodaProofs.C04", "PyodaProofs.C04Spec", "PyodaProofs.C04Tail", "PyodaProofs.C04TailRules"],
+    "proof_modules": ["PyodaProofs.C04", "PyodaProofs.C04Spec", "PyodaProofs.C04Tail", "PyodaProofs.C04TailRules",
+                      "PyodaProofs.C04Seq", "PyodaProofs.C04TailEnd", "PyodaProofs.C04Zone", "PyodaProofs.C04Walk"],
     "drivers": ["drv_zone"],
     "theorems": [
         "Pyoda.C04.search_spec", "Pyoda.C04.precalc_get_contains", "Pyoda.C04.precalc_get_unique",
@@ -16,12 +17,24 @@ META = {
         "Pyoda.C04.precalc_spec", "Pyoda.C04.agrees", "Pyoda.C04.dataOK_sound", "Pyoda.C04.dataOK_gives_spec",
         "Pyoda.C04.altmap_get_dst", "Pyoda.C04.altmap_get_std", "Pyoda.C04.altmap_partition", "Pyoda.C04.recSpec_of_rule",
         "Pyoda.C04.ruleOK_sound", "Pyoda.C04.tailOK_sound", "Pyoda.C04.tail_partition_of_tailOK", "Pyoda.C04.tail_partition_of_tailOK_stdFirst",
+        "Pyoda.C04.SeqSpec.partition", "Pyoda.C04.SeqSpec.index_unique",
+        "Pyoda.C04.recSpec_of_rule_end", "Pyoda.C04.getD_last", "Pyoda.C04.getS_last", "Pyoda.C04.ruleOKE_sound",
+        "Pyoda.C04.tailOKE_sound", "Pyoda.C04.tail_seq", "Pyoda.C04.tail_partition_end",
+        "Pyoda.C04.tail_valid", "Pyoda.C04.tail_walls", "Pyoda.C04.tailLen_sound",
+        "Pyoda.C04.SeqSpec.glue", "Pyoda.C04.stored_seq", "Pyoda.C04.seam_seq", "Pyoda.C04.zoneSeq_spec",
+        "Pyoda.C04.zoneOK_sound", "Pyoda.C04.zoneOK_gives_spec",
+        "Pyoda.C04.zoneOK_sound_max", "Pyoda.C04.maximal_differ", "Pyoda.C04.walk_partition", "Pyoda.C04.zoneOK_walk",
+        "Pyoda.C04.dataOK_zoneSeq", "Pyoda.C04.dataOK_walk", "Pyoda.C04.fixed_zoneSeq",
+        "Pyoda.C04.adjacent_differ", "Pyoda.C04.adjacent_differ_notail",
     ],
     "trusted_base": [
         "zone data (periods, tail rules) are read from the code's decoded objects and sent to the model per run; C06 ties them to the file bytes",
-        "tail (recurring rules): tail_partition_of_tailOK proves partition/abutting/constancy between the first transition after 1901 and the last before 9994 from the decidable per-year check tailOK (each yearly occurrence inside its own local year, the two rules alternate), which the compiled driver evaluates on the current rules of every zone (trusted: Lean compiler for that evaluation); the Gregorian year search used by the rules is the one proved in C01 (getYear_spec, greg_wf)",
+        "zones with a recurring tail: zoneOK_sound / zoneOK_gives_spec derive the whole-zone description (one strictly increasing transition sequence from the beginning to the end of time: stored periods, the clamped first tail interval at the seam, the tail intervals through year 9999, the final interval ending at the after-max sentinel; lookup constant on each interval, intervals abut) and the C05 hypotheses from ONE decidable check, zoneOK (stored periods well-formed and >= 36 h, every yearly occurrence of both rules for 1900..9999 inside its own local year and two days inside the end of time, the two rules alternate, consecutive tail transitions >= 36 h apart, the stored periods end at a valid instant after the first covered tail transition, the clamped seam interval >= 36 h), which the compiled driver evaluates on the current data of every zone with a tail each run (op zone.ok; trusted: Lean compiler for that evaluation); the Gregorian year search used by the rules is the one proved in C01 (getYear_spec, greg_wf)",
+        "walks and maximality: walk_partition / zoneOK_walk / dataOK_walk (the walk from the minimum instant to past the maximum instant returns abutting intervals covering every valid instant, the last one ending at the after-max sentinel) and adjacent_differ / adjacent_differ_notail (adjacent intervals differ in name or offsets) rest on the same evaluated checks plus zoneMaximal / maximal (stored periods pairwise, the last stored period against the first tail interval, the two tail rules against each other), also evaluated on every zone each run; a zone failing them is reported as a failure",
+        "the older tail theorems (tail_partition_of_tailOK, years 1901..9994) stay, with their own evaluated check tailOK (op tail.ok)",
     ],
-    "partial": ["recurring tail: the seam interval (clamped first tail interval), years before 1901 / after 9994 and the end-of-time sentinels are decided by model execution plus correspondence, not by the tail theorems; zones whose rules fail tailOK (none in tzdb 2023c) likewise"],
+    "partial": ["zones whose data fail zoneOK (none in tzdb 2023c; listed in the evidence notes when there are any) are decided by model execution plus correspondence only",
+                "instants before the first tail transition of 1901 inside the tail map alone (never reached through Precalc.get, whose stored periods cover them) are outside the tail theorems"],
     "rule": "instants: every stored period boundary -1ns/0/+1ns of every zone, tail transitions through 2100 and in far years, range ends, seeded random; distinct = distinct (zone, instant); non-trivial = zone has more than one interval",
 }
 
@@ -160,6 +173,23 @@ def run(ctx):
     tok = model_eval(defs + [f"tail.ok {sid} 1900 9996" for sid, _ in tz_tail], "drv_zone")[len(defs):]
     ctx.note("tail_zones_with_partition_hypotheses_discharged_by_tailOK", {"dst_first": tok.count("1"), "std_first": tok.count("2")})
     ctx.note("tail_zones_failing_tailOK", [z.id for (sid, z), r in zip(tz_tail, tok) if r not in ("1", "2")][:20])
+    # whole-zone check of the zones with a tail (zoneOK: stored periods, tail rules through 9999, seam, 36 h minimum),
+    # evaluated on the current data; a zone for which it is false is not a violation by itself (it falls back to
+    # execution + correspondence) and is listed in the notes
+    zok = [r.split(" ") for r in model_eval(defs + [f"zone.ok {sid}" for sid, _ in tz_tail], "drv_zone")[len(defs):]]
+    bad = [(sid, z) for (sid, z), r in zip(tz_tail, zok) if r[0] != "1"]
+    ctx.note("tail_zones_passing_zoneOK_(tail_through_9999_seam_minlen)", {"passing": len(tz_tail) - len(bad), "of": len(tz_tail),
+             "dst_first": sum(1 for r in zok if r[:2] == ["1", "1"]), "std_first": sum(1 for r in zok if r[:2] == ["1", "2"])})
+    # maximality on the data (hypothesis of adjacent_differ): stored periods pairwise, seam, the two tail rules
+    notmax = [z.id for (sid, z), r in zip(tz_tail, zok) if len(r) < 3 or r[2] != "1"]
+    ctx.note("tail_zones_passing_zoneMaximal", {"passing": len(tz_tail) - len(notmax), "of": len(tz_tail), "failing": notmax[:40]})
+    for zid in notmax:
+        ctx.add_failure({"key": "adjacent-intervals-equal-in-data", "what": f"{zid}: zoneMaximal is false on the decoded data (two adjacent stored periods, the seam, or the two tail rules do not differ in name/offsets)"}, op=f"zone.ok {Z.safe_id(zid)}", source="model-eval:zoneMaximal")
+    if bad:
+        toke = model_eval(defs + [f"tail.oke {sid}" for sid, _ in bad], "drv_zone")[len(defs):]
+        ctx.note("tail_zones_failing_zoneOK", [f"{z.id} (tailOKE={r})" for (sid, z), r in zip(bad, toke)][:40])
+    else:
+        ctx.note("tail_zones_failing_zoneOK", [])
     ctx.note("tailless_zones_with_C05_hypotheses_discharged_by_dataOK_and_theorem", n_dataok)
     ctx.note("tailless_zones_failing_dataOK", not_dataok[:20])
     ctx.oracles["data.PeriodsWF"] = {"cases": len(zs), "failures": sum(1 for f in ctx.failures if f["source"].startswith("model-eval")), "exhaustive": True}
